@@ -28,16 +28,22 @@ var pinnedJSON []byte
 type Pinned struct {
 	Types map[string]PinnedType `json:"types"` // type name -> shape
 	Funcs map[string]string     `json:"funcs"` // "Recv.name" / "name" -> signature fingerprint
+	// Flat: the same with the receiver counted as first parameter (a function turned into a method, or the reverse,
+	// keeps this fingerprint). Callers: the functions of the package that statically call the function (for helpers that
+	// have been inlined into their caller).
+	Flat    map[string]string   `json:"flat,omitempty"`
+	Callers map[string][]string `json:"callers,omitempty"`
 }
 
 type PinnedType struct {
-	FP     string     `json:"fp"`
+	FP     string      `json:"fp"`
 	Fields [][2]string `json:"fields,omitempty"` // (name, type fingerprint) in declaration order
 }
 
 var (
 	aliasMu   sync.RWMutex
 	aliasName = map[types.Object]string{} // object of the analysed tree -> pinned name (only where it differs)
+	aliasKey  = map[types.Object]string{} // function of the tree -> pinned "Recv.name" / "name" when the receiver changed too
 )
 
 // N returns the pinned name of a named thing (types.Object, *ssa.Function, *ssa.Builtin, ...): the name it has in the
@@ -179,6 +185,24 @@ func funcFP(f *types.Func, canon func(*types.TypeName) string) string {
 	return ptr + "func" + tupleFP(sig.Params(), canon, 0) + tupleFP(sig.Results(), canon, 0) + fmt.Sprint(sig.Variadic())
 }
 
+// flatFP is funcFP with the receiver as first parameter.
+func flatFP(f *types.Func, canon func(*types.TypeName) string) string {
+	sig := f.Type().(*types.Signature)
+	recv := ""
+	if sig.Recv() != nil {
+		recv = typeFP(sig.Recv().Type(), canon, 0)
+	}
+	ps := tupleFP(sig.Params(), canon, 0)
+	if recv != "" {
+		if ps == "()" {
+			ps = "(" + recv + ")"
+		} else {
+			ps = "(" + recv + "," + ps[1:]
+		}
+	}
+	return "func" + ps + tupleFP(sig.Results(), canon, 0) + fmt.Sprint(sig.Variadic())
+}
+
 // pkgFuncs lists the package-level functions and methods declared in the syntax of a package.
 func pkgFuncs(p *Pkg) []*types.Func {
 	var out []*types.Func
@@ -217,7 +241,7 @@ func (c *Ctx) DumpPinned() ([]byte, error) {
 	ident := func(tn *types.TypeName) string { return tn.Name() }
 	out := map[string]Pinned{}
 	for rel, p := range c.ByRel {
-		pin := Pinned{Types: map[string]PinnedType{}, Funcs: map[string]string{}}
+		pin := Pinned{Types: map[string]PinnedType{}, Funcs: map[string]string{}, Flat: map[string]string{}, Callers: map[string][]string{}}
 		for _, tn := range pkgTypeNames(p) {
 			pt := PinnedType{FP: namedFP(tn)}
 			if st, ok := tn.Type().Underlying().(*types.Struct); ok {
@@ -229,6 +253,43 @@ func (c *Ctx) DumpPinned() ([]byte, error) {
 		}
 		for _, f := range pkgFuncs(p) {
 			pin.Funcs[funcKey(f, ident)] = funcFP(f, ident)
+			pin.Flat[funcKey(f, ident)] = flatFP(f, ident)
+		}
+		// static callers within the package (through function literals as well)
+		if sp := c.SSA[rel]; sp != nil {
+			for _, f := range pkgFuncs(p) {
+				fn := c.Prog.FuncValue(f)
+				if fn == nil {
+					continue
+				}
+				for _, g := range WithAnon(fn) {
+					Instrs(g, func(in ssa.Instruction) {
+						ci, ok := in.(ssa.CallInstruction)
+						if !ok {
+							return
+						}
+						cal := ci.Common().StaticCallee()
+						if cal == nil || cal.Pkg != sp || cal == fn {
+							return
+						}
+						if co, ok := cal.Object().(*types.Func); ok {
+							k := funcKey(co, ident)
+							dup := false
+							for _, x := range pin.Callers[k] {
+								if x == funcKey(f, ident) {
+									dup = true
+								}
+							}
+							if !dup {
+								pin.Callers[k] = append(pin.Callers[k], funcKey(f, ident))
+							}
+						}
+					})
+				}
+			}
+			for k := range pin.Callers {
+				sort.Strings(pin.Callers[k])
+			}
 		}
 		out[rel] = pin
 	}
@@ -244,6 +305,7 @@ func (c *Ctx) buildAliases() error {
 	c.funcByCanon = map[string]*types.Func{}
 	c.typeByCanon = map[string]*types.TypeName{}
 	c.freshFuncs = map[*types.Func]bool{}
+	c.pinnedCallers = map[string][]string{}
 	c.Aliases = nil
 	set := func(o types.Object, name string) {
 		if o.Name() == name {
@@ -332,6 +394,9 @@ func (c *Ctx) buildAliases() error {
 		if !ok {
 			continue
 		}
+		for k, v := range pin.Callers {
+			c.pinnedCallers[rel+"|"+k] = v
+		}
 		cur := map[string]*types.Func{}
 		for _, f := range pkgFuncs(p) {
 			cur[funcKey(f, canon)] = f
@@ -379,6 +444,41 @@ func (c *Ctx) buildAliases() error {
 				set(cand[0], name)
 			}
 		}
+		// second stage: a function that became a method (or the reverse) keeps its flat signature
+		stillMissing := func(m string) bool {
+			for _, f := range pkgFuncs(p) {
+				if funcKey2(f) == m {
+					return false
+				}
+			}
+			return true
+		}
+		for _, m := range missing {
+			if !stillMissing(m) || pin.Flat[m] == "" {
+				continue
+			}
+			var cand []*types.Func
+			for _, f := range fresh {
+				if _, done := pin.Funcs[funcKey2(f)]; done {
+					continue
+				}
+				if flatFP(f, canon) == pin.Flat[m] && !f.Exported() {
+					cand = append(cand, f)
+				}
+			}
+			others := 0
+			for _, m2 := range missing {
+				if stillMissing(m2) && pin.Flat[m2] == pin.Flat[m] {
+					others++
+				}
+			}
+			if len(cand) == 1 && others == 1 && !ast.IsExported(m[strings.LastIndex(m, ".")+1:]) {
+				aliasMu.Lock()
+				aliasKey[cand[0]] = m
+				aliasMu.Unlock()
+				c.Aliases = append(c.Aliases, fmt.Sprintf("%s.%s = pinned %s (receiver changed)", cand[0].Pkg().Name(), cand[0].Name(), m))
+			}
+		}
 		for _, f := range pkgFuncs(p) {
 			k := funcKey2(f)
 			c.funcByCanon[rel+"|"+k] = f
@@ -393,6 +493,12 @@ func (c *Ctx) buildAliases() error {
 
 // funcKey2 is the canonical "Recv.name" / "name" of a function.
 func funcKey2(f *types.Func) string {
+	aliasMu.RLock()
+	k, ok := aliasKey[f]
+	aliasMu.RUnlock()
+	if ok {
+		return k
+	}
 	if tn := recvTypeName(f); tn != nil {
 		return CanonName(tn) + "." + CanonName(f)
 	}
@@ -554,4 +660,18 @@ func (c *Ctx) InspectWithFresh(info *types.Info, node ast.Node, f func(ast.Node)
 		})
 	}
 	visit(node, 0)
+}
+
+// FuncKey is the pinned "Recv.name" / "name" of the outermost named function enclosing fn.
+func FuncKey(fn *ssa.Function) string {
+	for fn.Parent() != nil {
+		fn = fn.Parent()
+	}
+	if o, ok := fn.Object().(*types.Func); ok {
+		return funcKey2(o)
+	}
+	if recv := fn.Signature.Recv(); recv != nil {
+		return TypeName(recv.Type()) + "." + fn.Name()
+	}
+	return fn.Name()
 }
